@@ -5,13 +5,14 @@ TIER=${1:-quick}
 OUT=/verif/seeded/RESULTS.txt
 : > $OUT.tmp
 for d in seeded/C*/; do
-  id=$(basename $d)
-  log=/verif/.scratch/seeded_$id.log
-  tools/eval_mutant.sh $id /verif/seeded/$id $TIER > $log 2>&1
+  name=$(basename $d)
+  id=${name:0:3}
+  log=/verif/.scratch/seeded_$name.log
+  tools/eval_mutant.sh $id /verif/seeded/$name $TIER > $log 2>&1
   demo=$(grep -m1 '^demo:' $log)
   rc=$(grep -m1 "^check $id" $log | sed 's/.*rc=//')
   sig=$(grep -m1 'signature=' $log | sed 's/^ *signature=//; s/ detail=.*//')
-  echo "$id tier=$TIER $demo | check rc=$rc | first signature: ${sig:-none}" >> $OUT.tmp
+  echo "$name tier=$TIER $demo | check rc=$rc | first signature: ${sig:-none}" >> $OUT.tmp
 done
 mv $OUT.tmp $OUT
 cat $OUT
